@@ -19,6 +19,7 @@ import (
 	"strings"
 	"sync"
 	"testing"
+	"time"
 
 	"pgregory.net/rapid"
 )
@@ -457,13 +458,73 @@ func Check[P any](t *testing.T, gen func(*rapid.T) P, run func(P) Result) {
 	rapid.Check(t, func(rt *rapid.T) {
 		p := gen(rt)
 		Journal(test, p)
+		stop := watchdog(test, p)
 		r := run(p)
+		stop()
 		Record(test, p, r)
 		if r.Err != nil {
 			path := WriteReplay(test, p, r)
 			rt.Fatalf("VF-FAIL replay=%s: %v", path, r.Err)
 		}
 	})
+}
+
+// watchdog guards one case against a frozen bubble. Virtual time cannot advance while a goroutine of the bubble waits
+// for a mutex, so a lock that is never released (a self-deadlock inside the node, say) does not end the case: it stops
+// the whole process until the driver's time budget runs out. After VF_CASE_WALL seconds of wall-clock time (default
+// 150; cases take seconds) the goroutines are listed, and if a goroutine of the bubble has been waiting for a mutex
+// inside memberlist for more than a minute while no membership callback of the harness is parked under the node lock,
+// the case is reported as a deadlock (replay file, stats, exit). Anything else is left to the time budget (inconclusive).
+func watchdog[P any](test string, p P) (stop func()) {
+	limit := time.Duration(EnvInt("VF_CASE_WALL", 150)) * time.Second
+	done := make(chan struct{})
+	go func() {
+		for {
+			select {
+			case <-done:
+				return
+			case <-time.After(limit):
+			}
+			buf := make([]byte, 16<<20)
+			buf = buf[:runtime.Stack(buf, true)]
+			var stuck []string
+			held := false
+			for _, g := range strings.Split(string(buf), "\n\n") {
+				head, _, _ := strings.Cut(g, "\n")
+				if !strings.Contains(head, "synctest bubble") {
+					continue
+				}
+				if strings.Contains(g, "puppet.(*Recorder).event") && strings.Contains(head, "chan receive") {
+					held = true
+				}
+				if (strings.Contains(head, "sync.Mutex.Lock") || strings.Contains(head, "sync.RWMutex.")) && strings.Contains(head, "minutes") &&
+					strings.Contains(g, "github.com/hashicorp/memberlist.") {
+					var fr []string
+					for _, l := range strings.Split(g, "\n") {
+						if strings.HasPrefix(l, "\t") {
+							continue
+						}
+						if i := strings.LastIndex(l, "("); i > 0 && !strings.HasPrefix(l, "goroutine") && !strings.HasPrefix(l, "created by") {
+							l = l[:i]
+						}
+						fr = append(fr, l)
+					}
+					stuck = append(stuck, trimStackN(strings.Join(fr, "\n"), 30))
+				}
+			}
+			if len(stuck) == 0 || held {
+				fmt.Printf("VF-WATCHDOG test=%s: case running for %v of wall-clock time (no mutex deadlock inside the node recognised)\n", test, limit)
+				continue
+			}
+			r := Result{Err: fmt.Errorf("deadlock: the case froze (virtual time cannot advance) with %d goroutine(s) of the node waiting for a mutex for more than a minute and nothing running:\n%s", len(stuck), strings.Join(stuck, "\n\n"))}
+			Record(test, p, r)
+			path := WriteReplay(test, p, r)
+			fmt.Printf("VF-FAIL replay=%s: %v\n", path, r.Err)
+			flush()
+			os.Exit(1)
+		}
+	}()
+	return func() { close(done) }
 }
 
 // CheckCase records a directly executed (enumerated or regression) case.
